@@ -623,6 +623,13 @@ class Interp:
                         st.env[n.id] = ("loopvar", n.id, s.lineno)
             else:
                 st.effects.append(("loop", None, s))
+                # a while loop that is only left through its test leaves the test false (evaluated on the post-loop state)
+                has_break = any(isinstance(n, ast.Break) for b in s.body for n in ast.walk(b)
+                                if not isinstance(b, (ast.For, ast.While)))
+                if not has_break and not s.orelse:
+                    c = self.ev(s.test, st)
+                    if self.truth(c) is None:
+                        record(st, c, False)
             yield st
         elif isinstance(s, ast.Delete):
             for t in s.targets:
